@@ -145,9 +145,20 @@ CloneCands(s) ==
     {[op |-> "clone", kind |-> kind, x |-> x] :
         <<kind, x>> \in UNION {{<<k, y>> : y \in 1..CountOf(s, k)} : k \in Kinds}}
 (* the transformation pipeline offered in a design of the transform scopes *)
+(* uniquify; uniquify; flatten - and: uniquify, re-point one hierarchical instance to the (now private)      *)
+(* definition of another one so that it is shared again, uniquify again                                      *)
 XfCands(s) ==
-    {[op |-> "seq", calls |-> << [op |-> "uniquify", n |-> 1], [op |-> "uniquify", n |-> 1],
-                                 [op |-> "flatten", n |-> 1] >>]}
+    LET U == [op |-> "uniquify", n |-> 1]
+        s1 == ApplyX(s, U).s
+        shareAgain == {<<i, j>> \in IdsI(s1) \X IdsI(s1) :
+                          /\ i # j /\ s1.instRef[i] # None /\ s1.instRef[j] # None /\ s1.instRef[i] # s1.instRef[j]
+                          /\ s1.instParent[i] # None /\ s1.instParent[j] # None
+                          /\ s1.defKids[s1.instRef[j]] # <<>>
+                          /\ LET r == Apply(s1, [op |-> "set_ref", i |-> i, d |-> s1.instRef[j]]) IN
+                             r.out = "ok" /\ Acyclic(r.s)}
+        pick == IF shareAgain = {} THEN {} ELSE {CHOOSE p \in shareAgain : TRUE}
+    IN {[op |-> "seq", calls |-> << U, U, [op |-> "flatten", n |-> 1] >>]}
+       \cup {[op |-> "seq", calls |-> << U, [op |-> "set_ref", i |-> p[1], d |-> s1.instRef[p[2]]], U >>] : p \in pick}
 (* queries that take part in random walks (scopes with walk = TRUE): they are steps of the       *)
 (* behaviour, so that queries, renames and structural edits interleave on the same objects       *)
 WalkQueryCands(s) ==
